@@ -580,6 +580,138 @@ func mutationStream(r *vh.RNG, rounds int, maxN int, coqEvery int, coqMaxN int, 
 	mergeSink(s, "mutation")
 }
 
+// ---------- every tree shape (skeleton) for small transaction counts ----------
+// skeletons enumerates every partial-tree shape at node (h, pos) of a block with n transactions
+// (hash contents left empty).
+func skeletons(n uint64, h uint, pos uint64) []*pmtref.Tree {
+	if h == 0 {
+		return []*pmtref.Tree{{Kind: 0, Matched: false}, {Kind: 0, Matched: true}}
+	}
+	out := []*pmtref.Tree{{Kind: 1}}
+	ls := skeletons(n, h-1, 2*pos)
+	if 2*pos+1 < pmtref.Width(n, h-1) {
+		rs := skeletons(n, h-1, 2*pos+1)
+		for _, l := range ls {
+			for _, r := range rs {
+				out = append(out, &pmtref.Tree{Kind: 3, L: l, R: r})
+			}
+		}
+	} else {
+		for _, l := range ls {
+			out = append(out, &pmtref.Tree{Kind: 2, L: l})
+		}
+	}
+	return out
+}
+
+// fill copies a skeleton giving every hash-bearing node a fresh hash.
+func fill(t *pmtref.Tree, r *vh.RNG) *pmtref.Tree {
+	c := *t
+	switch t.Kind {
+	case 0, 1:
+		c.H = randHash(r)
+	case 2:
+		c.L = fill(t.L, r)
+	default:
+		c.L, c.R = fill(t.L, r), fill(t.R, r)
+	}
+	return &c
+}
+
+// twoChildNodes lists the two-child nodes of t (pointers into t) with their heights.
+func twoChildNodes(t *pmtref.Tree, h uint, out *[]*pmtref.Tree, hs *[]uint) {
+	switch t.Kind {
+	case 2:
+		twoChildNodes(t.L, h-1, out, hs)
+	case 3:
+		*out = append(*out, t)
+		*hs = append(*hs, h)
+		twoChildNodes(t.L, h-1, out, hs)
+		twoChildNodes(t.R, h-1, out, hs)
+	}
+}
+
+// skeletonFamily: for every n <= maxN and every tree shape: (a) the honest serialisation must be
+// accepted with the tree's root and matches, also with the padding bits set; (b) 1 and 2 extra flag
+// bytes (0x00 / 0xff) must be rejected, whatever the number of bits the traversal consumes (in
+// particular exactly 8 and 16); (c) for every two-child node at every height whose one child carries
+// a hash, making that hash equal to the other child's hash must be rejected (CVE-2012-2459 at every
+// height, pruned-vs-recomputed included); (d) one hash fewer / one hash more must be rejected.
+func skeletonFamily(r *vh.RNG, maxN int, coqPerN int) {
+	s := newSink()
+	for n := 1; n <= maxN; n++ {
+		H := pmtref.Height(uint64(n))
+		sk := skeletons(uint64(n), H, 0)
+		added := 0
+		for si, sk0 := range sk {
+			t := fill(sk0, r)
+			bits := t.Flags(nil)
+			hashes := t.Hashes(nil)
+			flags := pmtref.Pack(bits)
+			coq := added < coqPerN && (si%97 == 0 || r.Chance(1, len(sk)/coqPerN+1))
+			check := func(name string, hs []pmtref.Hash, fl []byte, wantOK bool, wantReason string) {
+				o, res := monitor(s, uint32(n), hs, fl)
+				s.hist["skel:"+name]++
+				if res.OK != wantOK || (!wantOK && wantReason != "" && res.Reason != wantReason) {
+					// the family's expectation and the reference disagree: a harness defect, not a finding
+					s.violate("C12:harness:skeleton_expectation", fmt.Sprintf("skeleton family expected ok=%v/%s, reference says ok=%v/%s", wantOK, wantReason, res.OK, res.Reason),
+						replayOf(uint32(n), hs, fl, o, res))
+				}
+				if coq && n <= 8 {
+					addCase(uint32(n), hs, fl, o, n > 4, "skeleton:"+name)
+				}
+			}
+			check("honest", hashes, flags, true, "")
+			if len(bits)%8 != 0 {
+				fl := append([]byte(nil), flags...)
+				fl[len(fl)-1] |= byte(0xff) << uint(len(bits)%8)
+				check("padding_ones", hashes, fl, true, "")
+			}
+			for extra := 1; extra <= 2; extra++ {
+				for _, fillb := range []byte{0x00, 0xff} {
+					fl := append([]byte(nil), flags...)
+					for k := 0; k < extra; k++ {
+						fl = append(fl, fillb)
+					}
+					check(fmt.Sprintf("extra_flag_bytes_%d", extra), hashes, fl, false, "unused_flag_byte")
+				}
+			}
+			if len(flags) > 1 || len(bits) > 0 && len(flags) == 1 {
+				// drop the last flag byte: the bits run out (or, if it held no bits of the tree, cannot happen)
+				check("drop_last_flag_byte", hashes, flags[:len(flags)-1], false, "")
+			}
+			check("drop_last_hash", hashes[:len(hashes)-1], flags, false, "")
+			if len(hashes) < n {
+				check("append_hash", append(append([]pmtref.Hash(nil), hashes...), randHash(r)), flags, false, "unused_hash")
+			}
+			// equal children at every two-child node
+			var nodes []*pmtref.Tree
+			var hs []uint
+			twoChildNodes(t, H, &nodes, &hs)
+			for k, nd := range nodes {
+				for side := 0; side < 2; side++ {
+					a, b := nd.L, nd.R
+					if side == 1 {
+						a, b = nd.R, nd.L
+					}
+					if a.Kind > 1 {
+						continue // not hash-bearing
+					}
+					saved := a.H
+					a.H = b.Root()
+					check(fmt.Sprintf("equal_children_h%d", hs[k]), t.Hashes(nil), flags, false, "equal_children")
+					a.H = saved
+				}
+			}
+			if coq {
+				added++
+			}
+		}
+		s.hist[fmt.Sprintf("skel:shapes_n%d", n)] = len(sk)
+	}
+	mergeSink(s, "skeleton")
+}
+
 // ---------- fixed edge cases ----------
 func edgeCases(r *vh.RNG) {
 	s := newSink()
@@ -714,23 +846,28 @@ func main() {
 	t0 := time.Now()
 	switch {
 	case cfg.Search:
-		exhaustive("scope{A,B,H(A,A)}", []pmtref.Hash{A, B, AA}, 7, upTo, allBytes, 0, rng.Fork("ex1"))
-		exhaustive("scope{0,A,H(A,B)}", []pmtref.Hash{Z, A, AB}, 6, upTo, allBytes, 0, rng.Fork("ex2"))
-		mutationStream(rng.Fork("mut"), 6000, 5000, 1<<30, 0, 0)
+		// wider monitor-only exploration (run after the thorough tier when something broke)
+		second := []int{0, 1, 3, 0x15, 0x2a, 0x7f, 0x80, 0xff}
+		exhaustive("scope{0,A,H(A,B)}", []pmtref.Hash{Z, A, AB}, 7, upTo, second, 0, rng.Fork("ex2"))
+		skeletonFamily(rng.Fork("skel"), 12, 0)
+		mutationStream(rng.Fork("mut"), 4000, 5000, 1<<30, 0, 0)
 	case cfg.Thorough():
 		// count <= 7, all hash lists over three letters, all flag strings of <= 2 bytes
 		exhaustive("scope{A,B,H(A,A)}", []pmtref.Hash{A, B, AA}, 7, upTo, allBytes, 3, rng.Fork("ex1"))
-		exhaustive("scope{0,A,H(A,B)}", []pmtref.Hash{Z, A, AB}, 5, upTo, allBytes, 1, rng.Fork("ex2"))
+		exhaustive("scope{0,A,H(A,B)}", []pmtref.Hash{Z, A, AB}, 4, upTo, allBytes, 1, rng.Fork("ex2"))
+		skeletonFamily(rng.Fork("skel"), 10, 6)
 		mutationStream(rng.Fork("mut"), 3000, 5000, 53, 4, 120)
 	default:
 		// quick: the same scope with the second flag byte restricted to 8 values (all 2-byte strings in the thorough tier)
 		second := []int{0, 1, 3, 0x15, 0x2a, 0x7f, 0x80, 0xff}
 		exhaustive("scope{A,B,H(A,A)}", []pmtref.Hash{A, B, AA}, 7, upTo, second, 1, rng.Fork("ex1"))
+		skeletonFamily(rng.Fork("skel"), 9, 3)
 		mutationStream(rng.Fork("mut"), 600, 3000, 67, 4, 100)
 	}
 	rep.Extra["exhaustive_and_mutation_seconds"] = time.Since(t0).Seconds()
 	rep.Sample(map[string]interface{}{"family": "edge", "what": "CVE-2012-2459 shapes, count 0 / MaxTxnCount / MaxTxnCount+1 / 2^32-1, megabyte flag strings"}, 4)
 	rep.Sample(map[string]interface{}{"family": "exhaustive", "what": "count <= 7 x hash lists (<= count+1) over {A,B,H(A,A)} x flag strings <= 2 bytes"}, 4)
+	rep.Sample(map[string]interface{}{"family": "skeleton", "what": "every partial-tree shape for n <= 9 (12 in search): honest, padding bits set, 1-2 extra flag bytes, dropped byte/hash, extra hash, equal children forced at every two-child node of every height"}, 4)
 	rep.Sample(map[string]interface{}{"family": "mutation", "what": "honest proofs (reference builder) with bit flips, dropped/duplicated/reordered/corrupted hashes, altered count, truncated/extended flags"}, 4)
 	if !cfg.Search {
 		_, err := cases.Flush()
